@@ -214,6 +214,12 @@ fn main() {
     record_main(&args[2]);
     return;
   }
+  if args.len() >= 4 && args[1] == "probe" {
+    std::panic::set_hook(Box::new(|_| {}));
+    let r = child::run_probe(args[2].parse().unwrap(), args[3].parse().unwrap());
+    println!("RESULT {}", r);
+    return;
+  }
   // explorer
   let mut tier = std::env::var("VERIF_TIER").unwrap_or_else(|_| "quick".to_string());
   let mut config = "release".to_string();
@@ -257,6 +263,14 @@ fn main() {
     let doc: Value = serde_json::from_str(&std::fs::read_to_string(&path).expect("read replay")).expect("parse replay");
     let case = &doc["case"];
     let scn_name = case["scenario"].as_str().unwrap();
+    if scn_name == "mutual-exclusion probe" {
+      let exe = std::env::current_exe().unwrap();
+      let out = Command::new(exe).arg("probe").arg(case["call_kind"].to_string()).arg(case["depths"][0].to_string()).output().expect("probe child");
+      let r: Value = String::from_utf8_lossy(&out.stdout).lines().find_map(|l| l.strip_prefix("RESULT ").map(|r| serde_json::from_str::<Value>(r).ok())).flatten().unwrap_or(json!({}));
+      let bad = r["probe"] == json!("done") && (r["second_thread_completed_while_first_was_constructing"] == json!(true) || r["constructions"] != json!(1) || r["same_object"] != json!(true));
+      eprintln!("REPLAY C20 probe: {}", r);
+      std::process::exit(if bad { 1 } else { 0 });
+    }
     let scns = scenarios(false);
     let s = scns.iter().find(|s| s.name == scn_name).expect("unknown scenario");
     let pair = (case["depths"][0].as_u64().unwrap() as u8, case["depths"][1].as_u64().unwrap() as u8);
@@ -366,8 +380,42 @@ fn main() {
         "depths_per_schedule": pairs.iter().map(|p| json!([p.0, p.1])).collect::<Vec<_>>(), "schedules": n_sched, "scheduling_points": n_points, "completed": !capped}));
     }
   }
+  // mutual-exclusion probe: validates the blocking model of Once used by the scheduler
+  let mut probes = vec![];
+  {
+    let probe_depths: Vec<u8> = if quick { vec![2, 17] } else { vec![0, 5, 11, 17, 23, 29] };
+    let items: Vec<(u8, u8)> = [0u8, 1, 2].iter().flat_map(|&k| probe_depths.iter().map(move |&d| (k, d.max(if k == 2 { 1 } else { 0 })))).collect();
+    let results = par_map(&items, |&(k, d)| {
+      let exe = std::env::current_exe().unwrap();
+      let out = Command::new(exe).arg("probe").arg(k.to_string()).arg(d.to_string()).output();
+      match out {
+        Ok(o) => String::from_utf8_lossy(&o.stdout).lines().find_map(|l| l.strip_prefix("RESULT ").map(|r| serde_json::from_str::<Value>(r).ok())).flatten(),
+        Err(_) => None,
+      }
+    });
+    for (&(k, d), r) in items.iter().zip(results.into_iter()) {
+      let r = match r {
+        Some(r) => r,
+        None => { eprintln!("[c20sched] MACHINERY ERROR: probe child gave no result"); std::process::exit(2); }
+      };
+      total.stratum("mutual-exclusion-probe", 1, 2);
+      total.validated += 1;
+      let bad = r["probe"] == json!("done") && (r["second_thread_completed_while_first_was_constructing"] == json!(true) || r["constructions"] != json!(1) || r["same_object"] != json!(true));
+      if bad {
+        total.viol(Viol {
+          api: "get_or_create".into(),
+          kind: "no-mutual-exclusion".into(),
+          case: json!({"scenario": "mutual-exclusion probe", "call_kind": k, "depths": [d, d], "choices": []}),
+          expected: "while a thread is inside the constructor, a second thread calling get_or_create for the same depth waits; then one construction and the same object for both".into(),
+          actual: r.to_string(),
+        });
+      }
+      probes.push(json!({"call_kind": k, "depth": d, "result": r}));
+    }
+  }
   let mut extra = Map::new();
   extra.insert("scenarios".into(), json!(scn_info));
+  extra.insert("mutual_exclusion_probes".into(), json!(probes));
   extra.insert("distinct_event_logs".into(), json!(event_logs.len()));
   // abstract model + conformance
   let model = c20_model(&ctx, &mut total, &oracle);
